@@ -55,6 +55,7 @@ const (
 	c08Up int32 = iota
 	c08Loading
 	c08Err
+	c08Blackhole
 )
 
 type c08Server struct {
@@ -66,6 +67,7 @@ type c08Server struct {
 
 	mode  atomic.Int32
 	mu    sync.Mutex
+	hole  chan struct{}  // black hole: commands received wait here until the outage ends (under mu)
 	evals map[string]int // EVAL commands executed by the server, per KEYS[1]
 }
 
@@ -85,6 +87,18 @@ func (s *c08Server) hook(c *server.Peer, cmd string, args ...string) bool {
 		return true
 	case c08Err:
 		c.WriteError("ERR max number of clients reached")
+		return true
+	case c08Blackhole:
+		// accepted, never answered: the command (and this connection's server
+		// goroutine) waits until the outage ends and is then dropped unexecuted;
+		// the client has long given up on the connection (read timeout)
+		s.mu.Lock()
+		ch := s.hole
+		s.mu.Unlock()
+		if ch != nil {
+			<-ch
+		}
+		c.Close()
 		return true
 	}
 	if cmd == "EVAL" && len(args) >= 3 {
@@ -140,7 +154,7 @@ func (s *c08Server) restartLocked() {
 func (s *c08Server) reset() {
 	s.do(func() {
 		s.restartLocked()
-		s.mode.Store(c08Up)
+		s.setModeRaw(c08Up)
 		s.mr.FlushAll()
 		s.mu.Lock()
 		s.evals = map[string]int{}
@@ -152,7 +166,23 @@ func (s *c08Server) fastForward(d time.Duration) {
 	s.do(func() { s.mr.FastForward(d) })
 }
 
-func (s *c08Server) setMode(m int32) { s.mode.Store(m) }
+// setMode switches the kind of (non-)service; leaving the black hole releases
+// the commands parked in it.
+func (s *c08Server) setMode(m int32) { s.do(func() { s.setModeRaw(m) }) }
+
+// setModeRaw runs on the helper goroutine: the channel must not belong to a bubble.
+func (s *c08Server) setModeRaw(m int32) {
+	s.mu.Lock()
+	if m == c08Blackhole && s.hole == nil {
+		s.hole = make(chan struct{})
+	}
+	if m != c08Blackhole && s.hole != nil {
+		close(s.hole)
+		s.hole = nil
+	}
+	s.mu.Unlock()
+	s.mode.Store(m)
+}
 
 // closeServer / restartServer: the real thing (listener and all connections closed).
 func (s *c08Server) closeServer() {
